@@ -567,3 +567,217 @@ Section Remove.
       symmetry. apply rem_cur0. apply rem_in_dom. left. reflexivity.
   Qed.
 End Remove.
+
+(* ================================ top-level statements ================================ *)
+
+Lemma transfer_loop_length choose : forall fuel cur owned,
+  (length (fst (transfer_loop fuel choose cur owned)) <= fuel)%nat.
+Proof.
+  induction fuel as [|f IH]; intros cur owned; cbn [transfer_loop]; [cbn; lia|].
+  destruct (choose cur) as [[d r]|]; [|cbn; lia].
+  destruct (pop_owned_hash_slot owned d) as [[hs owned']|]; [|cbn; lia].
+  specialize (IH (transfer cur d r) owned').
+  destruct (transfer_loop f choose (transfer cur d r) owned') as [p c]. cbn [fst length] in *. lia.
+Qed.
+
+Lemma Forall_move_ok_incl assign dom dom' p : (forall s, In s dom -> In s dom') ->
+  Forall (move_ok assign dom) p -> Forall (move_ok assign dom') p.
+Proof.
+  intros H F. apply Forall_forall. intros m Im. rewrite Forall_forall in F.
+  destruct (F m Im) as [A [B [C [D [E G]]]]]. unfold move_ok. repeat split; try assumption; apply H; assumption.
+Qed.
+
+(* ---- rebalance ---- *)
+
+Theorem rebalance_plan_struct t : wf t ->
+  Forall (move_ok (t_assign t) (active_slot_ids t)) (compute_rebalance_plan t)
+  /\ NoDup (map mv_hs (compute_rebalance_plan t))
+  /\ (length (compute_rebalance_plan t) <= plan_fuel t)%nat.
+Proof.
+  intro W. unfold compute_rebalance_plan, compute_rebalance_plan_full.
+  destruct (active_slot_ids t) as [|a [|b rest]] eqn:EA;
+    try (cbn [fst map length]; split; [constructor|split; [constructor|lia]]).
+  rewrite <- EA. destruct (reb_struct t) as [F [ND _]].
+  split; [exact F|]. split; [exact ND|apply transfer_loop_length].
+Qed.
+
+(* ---- add ---- *)
+
+Theorem add_plan_struct t n : wf t ->
+  Forall (move_ok (t_assign t) (n :: active_slot_ids t)) (compute_add_slot_plan t n)
+  /\ NoDup (map mv_hs (compute_add_slot_plan t n))
+  /\ (length (compute_add_slot_plan t n) <= plan_fuel t)%nat.
+Proof.
+  intro W. unfold compute_add_slot_plan, compute_add_slot_plan_full.
+  destruct (n =? 0) eqn:E0; [cbn [fst map length]; split; [constructor|split; [constructor|lia]]|].
+  destruct (mem n (active_slot_ids t)) eqn:M; [cbn [fst map length]; split; [constructor|split; [constructor|lia]]|].
+  apply N.eqb_neq in E0. apply mem_false in M.
+  destruct (add_struct t n E0 M) as [F [ND _]].
+  split; [|split; [exact ND|apply transfer_loop_length]].
+  eapply Forall_move_ok_incl; [|exact F]. intros s Is. apply (add_in_S t n) in Is. destruct Is as [Q|Q]; [left; congruence|right; exact Q].
+Qed.
+
+Definition holds (assign : list N) (s : N) : N := cnt assign s.
+
+(* the add plan on a table that maps every hash slot to a physical slot *)
+Theorem add_plan_result t n : wf t -> nzl (t_assign t) -> n <> 0 -> ~ In n (active_slot_ids t) ->
+  let E := active_slot_ids t in
+  let parts := n :: E in
+  let post := apply_moves (compute_add_slot_plan t n) (t_assign t) in
+  (* the new slot gets exactly its ideal share *)
+  cnt post n = spec_ideal (t_count t) parts n
+  (* a donor is never taken below its ideal share, a slot at or below it is not touched *)
+  /\ (forall s, In s E ->
+        (cnt (t_assign t) s <= spec_ideal (t_count t) parts s -> cnt post s = cnt (t_assign t) s)
+        /\ (spec_ideal (t_count t) parts s <= cnt (t_assign t) s ->
+            spec_ideal (t_count t) parts s <= cnt post s <= cnt (t_assign t) s))
+  (* a table within one of ideal stays within one *)
+  /\ (balanced (t_count t) (t_assign t) E = true -> balanced (t_count t) post parts = true).
+Proof.
+  intros W NZ Nnz Nnew E parts post.
+  assert (PL : post = apply_moves (fst (transfer_loop (plan_fuel t) (add_choose (ideal_slot_counts (t_count t) (sort_ids (E ++ [n]))) E n)
+                                         (slot_counts t (sort_ids (E ++ [n]))) (slot_hash_slots t E))) (t_assign t)).
+  { unfold post, compute_add_slot_plan, compute_add_slot_plan_full.
+    assert (E0 : (n =? 0) = false) by (apply N.eqb_neq; exact Nnz).
+    assert (M : mem n (active_slot_ids t) = false) by (apply mem_false; exact Nnew).
+    rewrite E0, M. reflexivity. }
+  destruct (add_struct t n Nnz Nnew) as [_ [_ TR]]. fold E in TR.
+  destruct (add_final t n W Nnz Nnew NZ) as [[I1 [I2 [I3 I4]]] FN]. fold E in I1, I2, I3, I4, FN.
+  set (S' := sort_ids (E ++ [n])) in *.
+  set (tgt := ideal_slot_counts (t_count t) S') in *.
+  set (cur0 := slot_counts t S') in *.
+  set (c := snd (transfer_loop (plan_fuel t) (add_choose tgt E n) cur0 (slot_hash_slots t E))) in *.
+  rewrite <- PL in TR.
+  pose proof (add_S_perm t n) as PS. fold E S' in PS.
+  assert (InS : forall s, In s S' <-> s = n \/ In s E) by (intro s; apply (add_in_S t n)).
+  assert (TG : forall s, In s S' -> aget 0 tgt s = spec_ideal (t_count t) parts s).
+  { intros s Is. unfold tgt. rewrite ideal_slot_counts_spec by (try apply (add_S_nodup t n Nnew); exact Is).
+    apply spec_ideal_perm. exact PS. }
+  assert (C0 : forall s, In s S' -> aget 0 cur0 s = cnt (t_assign t) s) by (intros s Is; apply (add_cur0 t n); exact Is).
+  assert (NS : In n S') by (apply InS; left; reflexivity).
+  split; [|split].
+  - rewrite <- (TR n NS), FN. apply TG. exact NS.
+  - intros s Is. assert (IsS : In s S') by (apply InS; right; exact Is).
+    destruct (I3 s Is) as [P1 P2]. rewrite <- (TR s IsS), <- (C0 s IsS), <- (TG s IsS). split; assumption.
+  - intro PRE. unfold balanced in *. rewrite forallb_forall in *. intros s Is.
+    unfold within_one. apply andb_true_iff.
+    destruct Is as [Q|Is].
+    + subst s. rewrite <- (TR n NS), FN, (TG n NS). split; apply N.leb_le; lia.
+    + assert (IsS : In s S') by (apply InS; right; exact Is).
+      assert (ENE : E <> []) by (intro Q; rewrite Q in Is; destruct Is).
+      pose proof (active_nodup t) as NDE. fold E in NDE.
+      assert (LB : cnt post s <= spec_ideal (t_count t) parts s + 1 /\ spec_ideal (t_count t) parts s <= cnt post s + 1).
+      { apply (levelled_balanced E (cnt (t_assign t)) (cnt post) (spec_ideal (t_count t) E) (spec_ideal (t_count t) parts)).
+        - transitivity (t_count t); [exact (sum_cnt_active t W NZ)|symmetry; apply sumf_spec_ideal; assumption].
+        - (* both sums are the total minus the share of the new slot *)
+          assert (A1 : sumf (cnt post) S' = t_count t).
+          { rewrite <- I1. apply sumf_ext. intros y Iy. symmetry. apply TR. exact Iy. }
+          assert (A2 : sumf (spec_ideal (t_count t) parts) S' = t_count t).
+          { transitivity (sumf (aget 0 tgt) S'); [apply sumf_ext; intros y Iy; symmetry; apply TG; exact Iy|exact (add_sum_tgt t n Nnew)]. }
+          rewrite (sumf_perm _ _ _ PS), sumf_cons in A1. rewrite (sumf_perm _ _ _ PS), sumf_cons in A2.
+          assert (cnt post n = spec_ideal (t_count t) parts n) by (rewrite <- (TR n NS), FN; apply TG; exact NS). lia.
+        - (* a share never grows when a slot joins *)
+          intros y Iy. unfold spec_ideal, parts. cbn [length].
+          assert (K : 1 <= N.of_nat (length E)) by (destruct E; [congruence|cbn [length]; lia]).
+          assert (K1 : (N.of_nat (S (length E)) =? 0) = false) by (apply N.eqb_neq; lia).
+          assert (K2 : (N.of_nat (length E) =? 0) = false) by (apply N.eqb_neq; lia).
+          rewrite K1, K2. replace (N.of_nat (S (length E))) with (N.of_nat (length E) + 1) by lia.
+          apply ideal_mono; [exact K|]. rewrite rank_cons. lia.
+        - intros y Iy. specialize (PRE y Iy). unfold within_one in PRE. apply andb_true_iff in PRE.
+          destruct PRE as [Q1 Q2]. apply N.leb_le in Q1, Q2. split; assumption.
+        - intros y Iy. assert (IyS : In y S') by (apply InS; right; exact Iy).
+          destruct (I3 y Iy) as [P1 P2]. rewrite <- (TR y IyS), <- (C0 y IyS), <- (TG y IyS). split; assumption.
+        - intros i j Ii Ij. assert (IiS : In i S') by (apply InS; right; exact Ii).
+          assert (IjS : In j S') by (apply InS; right; exact Ij).
+          rewrite <- (TR i IiS), <- (TR j IjS), <- (C0 i IiS), <- (TG i IiS), <- (TG j IjS). apply I4; assumption.
+        - exact Is. }
+      split; apply N.leb_le; lia.
+Qed.
+
+(* ---- remove ---- *)
+
+Lemma hash_slots_of_nil t x : hash_slots_of t x = [] <-> ~ In x (t_assign t).
+Proof.
+  rewrite <- cnt_zero_iff. unfold hash_slots_of. rewrite <- (indices_of_length (t_assign t) x 0).
+  destruct (indices_of 0 (t_assign t) x); cbn [length]; split; intro H; try reflexivity; try discriminate; lia.
+Qed.
+
+Theorem remove_plan_struct t x : wf t ->
+  Forall (move_ok (t_assign t) (active_slot_ids t)) (compute_remove_slot_plan t x)
+  /\ NoDup (map mv_hs (compute_remove_slot_plan t x))
+  /\ (length (compute_remove_slot_plan t x) <= plan_fuel t)%nat.
+Proof.
+  intro W. unfold compute_remove_slot_plan, compute_remove_slot_plan_full.
+  destruct (x =? 0) eqn:E0; [cbn [fst map length]; split; [constructor|split; [constructor|lia]]|].
+  destruct (hash_slots_of t x) as [|h0 hr] eqn:EH; [cbn [fst map length]; split; [constructor|split; [constructor|lia]]|].
+  destruct (active_slot_ids_excluding t x) as [|r0 rr] eqn:ER; [cbn [fst map length]; split; [constructor|split; [constructor|lia]]|].
+  rewrite <- ER. apply N.eqb_neq in E0.
+  assert (Xin : In x (active_slot_ids t)).
+  { apply in_active. split; [exact E0|]. destruct (in_dec N.eq_dec x (t_assign t)) as [I|I]; [exact I|].
+    apply hash_slots_of_nil in I. rewrite I in EH. discriminate. }
+  destruct (rem_struct t x) as [F [ND _]].
+  split; [|split; [exact ND|apply transfer_loop_length]].
+  eapply Forall_move_ok_incl; [|exact F]. intros s Is. apply (rem_in_dom t x) in Is.
+  destruct Is as [Q|Q]; [subst; exact Xin|]. apply (rem_in_R t x) in Q. destruct Q as [Q _]. exact Q.
+Qed.
+
+(* the remove plan on a table that maps every hash slot to a physical slot *)
+Theorem remove_plan_result t x : wf t -> nzl (t_assign t) -> In x (active_slot_ids t) ->
+  active_slot_ids_excluding t x <> [] ->
+  let A := active_slot_ids t in
+  let R := active_slot_ids_excluding t x in
+  let post := apply_moves (compute_remove_slot_plan t x) (t_assign t) in
+  (* the removed slot ends empty *)
+  cnt post x = 0
+  (* a receiver is never filled above its ideal share, a slot at or above it is not touched *)
+  /\ (forall s, In s R ->
+        (spec_ideal (t_count t) R s <= cnt (t_assign t) s -> cnt post s = cnt (t_assign t) s)
+        /\ (cnt (t_assign t) s <= spec_ideal (t_count t) R s ->
+            cnt (t_assign t) s <= cnt post s <= spec_ideal (t_count t) R s))
+  (* on a table within one of ideal no remaining slot ends more than one above its ideal share *)
+  /\ (balanced (t_count t) (t_assign t) A = true -> not_over (t_count t) post R = true).
+Proof.
+  intros W NZ Xin RNE A R post.
+  assert (Xnz : x <> 0) by (apply in_active in Xin; destruct Xin; assumption).
+  assert (PL : post = apply_moves (fst (transfer_loop (plan_fuel t) (remove_choose (ideal_slot_counts (t_count t) R) R x)
+                                         (slot_counts t (R ++ [x])) (slot_hash_slots t [x]))) (t_assign t)).
+  { unfold post, compute_remove_slot_plan, compute_remove_slot_plan_full.
+    assert (E0 : (x =? 0) = false) by (apply N.eqb_neq; exact Xnz). rewrite E0.
+    destruct (hash_slots_of t x) as [|h0 hr] eqn:EH.
+    { apply hash_slots_of_nil in EH. exfalso. apply EH. apply in_active in Xin. destruct Xin; assumption. }
+    unfold R. destruct (active_slot_ids_excluding t x) as [|r0 rr] eqn:ER; [congruence|]. reflexivity. }
+  destruct (rem_struct t x) as [_ [_ TR]]. fold R in TR.
+  destruct (rem_final t x W RNE NZ) as [[I1 I3] FN]. fold R in I1, I3, FN.
+  set (tgt := ideal_slot_counts (t_count t) R) in *.
+  set (cur0 := slot_counts t (R ++ [x])) in *.
+  set (c := snd (transfer_loop (plan_fuel t) (remove_choose tgt R x) cur0 (slot_hash_slots t [x]))) in *.
+  rewrite <- PL in TR.
+  assert (InD : forall s, In s (R ++ [x]) <-> s = x \/ In s R) by (intro s; apply (rem_in_dom t x)).
+  assert (TG : forall s, In s R -> aget 0 tgt s = spec_ideal (t_count t) R s).
+  { intros s Is. unfold tgt. apply ideal_slot_counts_spec; [apply (rem_R_nodup t x)|exact Is]. }
+  assert (C0 : forall s, In s (R ++ [x]) -> aget 0 cur0 s = cnt (t_assign t) s) by (intros s Is; apply (rem_cur0 t x); exact Is).
+  assert (NC : forall s, In s R ->
+        (spec_ideal (t_count t) R s <= cnt (t_assign t) s -> cnt post s = cnt (t_assign t) s)
+        /\ (cnt (t_assign t) s <= spec_ideal (t_count t) R s ->
+            cnt (t_assign t) s <= cnt post s <= spec_ideal (t_count t) R s)).
+  { intros s Is. assert (IsD : In s (R ++ [x])) by (apply InD; right; exact Is).
+    destruct (I3 s Is) as [P1 P2]. rewrite <- (TR s IsD), <- (C0 s IsD), <- (TG s Is). split; assumption. }
+  split; [|split; [exact NC|]].
+  - rewrite <- (TR x) by (apply InD; left; reflexivity). exact FN.
+  - intro PRE. unfold balanced, not_over in *. rewrite forallb_forall in *. intros s Is.
+    apply N.leb_le. destruct (NC s Is) as [P1 P2].
+    assert (IsA : In s A) by (apply (rem_in_R t x) in Is; destruct Is; assumption).
+    specialize (PRE s IsA). unfold within_one in PRE. apply andb_true_iff in PRE. destruct PRE as [Q1 _]. apply N.leb_le in Q1.
+    (* a share never shrinks when a slot leaves *)
+    assert (MONO : spec_ideal (t_count t) A s <= spec_ideal (t_count t) R s).
+    { pose proof (Permutation_length (rem_A_perm t x Xin RNE)) as LA. fold A R in LA. cbn [length] in LA.
+      assert (K : 1 <= N.of_nat (length R)) by (unfold R; destruct (active_slot_ids_excluding t x); [congruence|cbn [length]; lia]).
+      unfold spec_ideal. rewrite LA.
+      assert (K1 : (N.of_nat (S (length R)) =? 0) = false) by (apply N.eqb_neq; lia).
+      assert (K2 : (N.of_nat (length R) =? 0) = false) by (apply N.eqb_neq; lia).
+      rewrite K1, K2. replace (N.of_nat (S (length R))) with (N.of_nat (length R) + 1) by lia.
+      apply ideal_mono; [exact K|]. unfold R, active_slot_ids_excluding. apply rank_filter_le. }
+    destruct (N.le_gt_cases (spec_ideal (t_count t) R s) (cnt (t_assign t) s)) as [G|G].
+    + rewrite (P1 G). lia.
+    + specialize (P2 ltac:(lia)). lia.
+Qed.
